@@ -117,6 +117,7 @@ RULES = [
     ("C18-R1", "a followed link is resolved relative to itself and entered only if it is a directory", r1),
     ("C18-R3", "visited test before listing, canonical key, inode set", r3),
     ("C18-R4", "no depth underflow for targets above the root; follow flag plumbing", r4),
+    ("C01-R5", "without the option no descent through a link [shared with C01]", lambda ctx: __import__("c01").r5(ctx)),
 ]
 
 EXPLANATION = (
